@@ -23,3 +23,4 @@ for id in "$@"; do
 done
 git checkout -- .
 rm -rf /verif/replays
+(cd /verif && git checkout -- evidence 2>/dev/null)
